@@ -39,7 +39,7 @@ Clauses(o) ==
     LET want == XRuleDen(o.doc, 1, o.Ts, FALSE) IN
     IF ~o.ret.ok /\ ~o.ret.sigma THEN <<C("NonSigmaException")>>
     ELSE IF ~o.plain.ok THEN <<>>                     \* the rule does not convert even without pipeline
-    ELSE IF want.st = "unspec" THEN <<>>
+    ELSE IF want.st = "unspec" THEN <<D("__unspec")>>
     ELSE IF want.st = "fail" THEN (IF o.ret.ok THEN <<C("InvalidRuleConverted")>> ELSE <<>>)
     ELSE IF ~o.ret.ok THEN <<C("RewrittenRuleRejected")>>
     ELSE IF Len(o.ret.out) # 1 THEN <<C("OneQueryPerCondition")>>
@@ -57,7 +57,7 @@ Verdict(o) ==
         viol == SelectSeq(cs, LAMBDA c : ~c.dev)
     IN  [id |-> o.id,
          v |-> IF viol # <<>> THEN "violation:" \o viol[1].name
-               ELSE IF cs # <<>> THEN "dev:" \o cs[1].name ELSE "ok"]
+               ELSE IF cs # <<>> THEN (IF cs[1].name = "__unspec" THEN "unspec" ELSE "dev:" \o cs[1].name) ELSE "ok"]
 ASSUME ndJsonSerialize(IOEnv.VERIF_OUT, [i \in 1..Len(Obs) |-> Verdict(Obs[i])])
 Init == x = 0
 Next == UNCHANGED x
